@@ -169,3 +169,29 @@ def dict_keys_written(node):
                 out[k.value] = v
         return out
     return None
+
+
+def const_values(fi, e):
+    """Possible constant values of an expression: a literal, a local with a single constant definition, or a loop / comprehension variable ranging over a
+    literal tuple / list of constants. [] when unknown."""
+    v = const_value(e)
+    if v is not None or (isinstance(e, ast.Constant) and e.value is None):
+        return [v]
+    if isinstance(e, ast.Name):
+        out = []
+        for n in ast.walk(fi.node):
+            tgt = it = None
+            if isinstance(n, ast.For):
+                tgt, it = n.target, n.iter
+            elif isinstance(n, ast.comprehension):
+                tgt, it = n.target, n.iter
+            elif isinstance(n, ast.Assign) and len(n.targets) == 1:
+                if isinstance(n.targets[0], ast.Name) and n.targets[0].id == e.id and const_value(n.value) is not None:
+                    out.append(const_value(n.value))
+                continue
+            if tgt is not None and isinstance(tgt, ast.Name) and tgt.id == e.id and isinstance(it, (ast.Tuple, ast.List)):
+                vals = [const_value(x) for x in it.elts]
+                if all(x is not None for x in vals):
+                    out.extend(vals)
+        return out
+    return []
